@@ -654,9 +654,14 @@ func branchConds(fi *FuncInfo) []ast.Expr {
 
 // atomsOfNewCall adds the atoms of what a new function returns (result idx, or all).
 func (w *World) atomsOfNewCall(tgt *FuncInfo, idx int, a *Atoms, depth int) {
-	if tgt == nil {
-		return
+	if tgt == nil || w.newCallBusy[tgt.Key] {
+		return // (a new function that calls itself: already being looked through)
 	}
+	if w.newCallBusy == nil {
+		w.newCallBusy = map[string]bool{}
+	}
+	w.newCallBusy[tgt.Key] = true
+	defer delete(w.newCallBusy, tgt.Key)
 	tfd := w.defsOf(tgt)
 	for _, e := range resultExprs(tgt, idx) {
 		w.atomsInto(tgt, tfd, e, a, map[ast.Node]bool{}, depth+5)
